@@ -58,6 +58,7 @@ structure RdrCfg where
   max : Nat := 0
   ext : Bool := false
   inter : Bool := false
+  lazy : Nat := 0        -- 1: handler reads nothing, 2: handler reads one byte
 
 def parseCfg (s : String) : RdrCfg :=
   (s.splitOn ",").foldl (fun c t =>
@@ -66,12 +67,21 @@ def parseCfg (s : String) : RdrCfg :=
     else if t.startsWith "max:" then { c with max := natOr (t.drop 4).toString }
     else if t == "ext" then { c with ext := true }
     else if t == "inter" then { c with inter := true }
+    else if t == "interlazy" then { c with lazy := 1 }
+    else if t == "interone" then { c with lazy := 2 }
     else c) {}
 
 def collectCb : Callback := fun h r s cx =>
   let (chunks, e, r', s', cx') := Rd.pull false 512 none (pullFuel s) r s cx []
   if e = .eof then ⟨none, r', s', { cx' with msgs := cx'.msgs ++ [(h.op, chunks.flatten)] }⟩
   else ⟨some e, r', s', cx'⟩
+
+/-- handlers that leave (most of) the control payload unread -/
+def lazyCb (one : Bool) : Callback := fun h r s cx =>
+  if !one then ⟨none, r, s, { cx with msgs := cx.msgs ++ [(h.op, [])] }⟩
+  else match r.frameRead s 1 with
+    | none => ⟨some .fault, r, s, cx⟩
+    | some (bytes, n, _, r', s') => ⟨none, r', s', { cx with msgs := cx.msgs ++ [(h.op, bytes.take n)] }⟩
 
 def rdrRun (total : Nat) (cb : Option Callback) (hasExt : Bool) :
     Rd → Src → Ctx → List String → List String → List String × Src × Ctx
@@ -107,7 +117,7 @@ def c04rdr (a : List String) (_obs : String) : String :=
     let s := mkSrc2 hex k fin
     let c := parseCfg cfg
     let r : Rd := { state := natOr st, skipCheck := c.skip, checkUTF8 := c.utf8, maxFrame := c.max, ext := c.ext }
-    let cb := if c.inter then some collectCb else none
+    let cb := if c.inter then some collectCb else if c.lazy == 1 then some (lazyCb false) else if c.lazy == 2 then some (lazyCb true) else none
     let (items, s', cx) := rdrRun s.bytes.length cb c.ext r s {} script []
     s!"{";".intercalate items} inter={msgsStr cx.msgs} {consumed s.bytes.length s'}"
   | _ => "BADOP"
